@@ -26,7 +26,10 @@ CPPFLAGS = ["-P", "-U", "__GNUC__", "-U", "__GNUC_MINOR__", "-D", "__STDC_NO_ATO
 def prepare(ctx):
     cproc.prepare(ctx, ["plain"])
     ctx.data["corpus"] = sorted(glob.glob(os.path.join(build.REPO, "test", "*.c")))
-    d = os.path.join(build.CACHE, build.tree_hash("stage2-v1"))
+    import hashlib
+    tools = hashlib.sha256(b"".join(open(os.path.join(build.VERIF, f), "rb").read() for f in
+                                    ("vlib/il2c.py", "vlib/qbeil.py", "native/rt.c", "native/rt.h"))).hexdigest()[:12]
+    d = os.path.join(build.CACHE, build.tree_hash("stage2-v1-" + tools))
     exe = os.path.join(d, "cproc-qbe")
     own = os.path.join(d, "own")
     if not os.path.exists(os.path.join(d, ".ok")):
